@@ -205,7 +205,7 @@ def split_obs(o):
 class C16(Base):
     ID = "C16"
     AREA = "fb"
-    LEMMA_FILES = ["FluentProofs/Fallback.lean", "FluentProofs/FallbackBatch.lean"]
+    LEMMA_FILES = ["FluentProofs/Fallback.lean", "FluentProofs/FallbackBatch.lean", "FluentProofs/FallbackApi.lean"]
     RULE = ("random availability matrices: 0-4 locales (repeats allowed) x 7 message ids x 8 message states "
             "(absent, value, value+attribute, attribute only, value with a missing-variable / missing-term resolver "
             "error, attribute resolver errors) x bundle results (Ok, duplicate id, junk, both, Err with no errors), "
